@@ -342,6 +342,7 @@ func runC15(r *Report) {
 	c15R3(r)
 	c15R4(r)
 	c15R5(r)
+	c15Bounded(r, "R1")
 }
 
 func c15R3(r *Report) {
@@ -486,4 +487,204 @@ func c15R5(r *Report) {
 		})
 	}
 	r.Sentinel("R5", n, 4)
+}
+
+// ---------- the exchange with the tracker is bounded in time ----------
+
+// positiveDur: v is a duration that is positive on every path: a positive constant, sums, products and shifts of
+// such, and loop-carried values all of whose inputs are (timeout := 5s; …; timeout *= 2).
+func positiveDur(v ssa.Value, onPath map[ssa.Value]bool, d int) bool {
+	if d > 12 || v == nil {
+		return false
+	}
+	if onPath[v] {
+		return true // loop-carried: decided by the other inputs
+	}
+	switch x := v.(type) {
+	case *ssa.Const:
+		k, ok := constInt(x)
+		return ok && k > 0
+	case *ssa.Convert:
+		return positiveDur(x.X, onPath, d+1)
+	case *ssa.ChangeType:
+		return positiveDur(x.X, onPath, d+1)
+	case *ssa.BinOp:
+		switch x.Op {
+		case token.MUL, token.ADD:
+			return positiveDur(x.X, onPath, d+1) && positiveDur(x.Y, onPath, d+1)
+		case token.SHL:
+			return positiveDur(x.X, onPath, d+1)
+		}
+	case *ssa.Phi:
+		onPath[v] = true
+		defer delete(onPath, v)
+		for _, e := range x.Edges {
+			if !positiveDur(e, onPath, d+1) {
+				return false
+			}
+		}
+		return true
+	}
+	return false
+}
+
+// c15Bounded: Announce holds the tracker's busy flag for as long as the exchange lasts, and the context it is given
+// is the torrent's, which lives as long as the torrent.  Unless the exchange itself is bounded — an overall timeout
+// on the HTTP client (or a deadline on the request's context), a deadline on the UDP socket before each read and
+// write — a tracker that stops answering in mid-reply keeps the flag for ever and is never announced to again.
+func c15Bounded(r *Report, rule string) {
+	p := r.P
+	clientT := func(t types.Type) bool { return typeIs(derefType(t), "net/http", "Client") }
+	// every http.Client built in h (and its closures) gets a positive overall Timeout
+	clientsBounded := func(h *ssa.Function) (bool, token.Pos, string) {
+		fns := []*ssa.Function{h}
+		fns = append(fns, h.AnonFuncs...)
+		n := 0
+		for _, g := range fns {
+			var bad ssa.Instruction
+			why := ""
+			allInstrs(g, func(in ssa.Instruction) {
+				al, ok := in.(*ssa.Alloc)
+				if !ok || bad != nil {
+					return
+				}
+				if nt, isN := al.Type().Underlying().(*types.Pointer).Elem().(*types.Named); !isN || nt.Obj().Name() != "Client" || nt.Obj().Pkg() == nil || nt.Obj().Pkg().Path() != "net/http" {
+					return
+				}
+				n++
+				stores := 0
+				for _, ref := range *al.Referrers() {
+					fa, ok := ref.(*ssa.FieldAddr)
+					if !ok || fieldVar(fa) == nil || fieldVar(fa).Name() != "Timeout" {
+						continue
+					}
+					for _, r2 := range *fa.Referrers() {
+						if st, ok := r2.(*ssa.Store); ok && st.Addr == ssa.Value(fa) {
+							stores++
+							if !positiveDur(st.Val, map[ssa.Value]bool{}, 0) {
+								bad, why = st, "is given a Timeout that is zero (no limit) on some path"
+							}
+						}
+					}
+				}
+				if stores == 0 && bad == nil {
+					bad, why = al, "is given no Timeout"
+				}
+			})
+			if bad != nil {
+				return false, bad.Pos(), why
+			}
+		}
+		if n == 0 {
+			return false, h.Pos(), "is not built there"
+		}
+		return true, token.NoPos, ""
+	}
+	ctxBounded := func(v ssa.Value) bool {
+		// req.WithContext(ctx2) / NewRequestWithContext(ctx2, …) with ctx2 from context.WithTimeout/WithDeadline
+		var find func(v ssa.Value, d int) bool
+		find = func(v ssa.Value, d int) bool {
+			if d > 5 || v == nil {
+				return false
+			}
+			switch x := v.(type) {
+			case *ssa.Extract:
+				if c, ok := x.Tuple.(*ssa.Call); ok {
+					if isStdCall(c, "context", "", "WithTimeout") || isStdCall(c, "context", "", "WithDeadline") {
+						return x.Index == 0
+					}
+					for _, a := range c.Call.Args {
+						if find(a, d+1) {
+							return true
+						}
+					}
+				}
+			case *ssa.Call:
+				for _, a := range x.Call.Args {
+					if find(a, d+1) {
+						return true
+					}
+				}
+			case *ssa.MakeInterface:
+				return find(x.X, d+1)
+			case *ssa.ChangeInterface:
+				return find(x.X, d+1)
+			}
+			return false
+		}
+		return find(v, 0)
+	}
+	nHTTP, nUDP := 0, 0
+	for _, f := range p.SrcFuncs() {
+		if relPkg(f) != "tracker" {
+			continue
+		}
+		allInstrs(f, func(in ssa.Instruction) {
+			c, ok := in.(*ssa.Call)
+			if !ok {
+				return
+			}
+			// (a) HTTP
+			if h := c.Call.StaticCallee(); h != nil && !c.Call.IsInvoke() && h.Pkg != nil && h.Pkg.Pkg.Path() == "net/http" && len(c.Call.Args) > 0 && clientT(c.Call.Args[0].Type()) &&
+				(h.Name() == "Do" || h.Name() == "Get" || h.Name() == "Post" || h.Name() == "Head" || h.Name() == "PostForm") {
+				nHTTP++
+				r.Fn(f)
+				good, msg := false, ""
+				for _, a := range c.Call.Args[1:] {
+					if ctxBounded(a) {
+						good = true
+					}
+				}
+				if !good {
+					switch src := c.Call.Args[0].(type) {
+					case *ssa.Call:
+						if g := src.Call.StaticCallee(); g != nil && g.Blocks != nil && !src.Call.IsInvoke() && strings.HasPrefix(funcPkgPath(g), modPath) {
+							ok2, pos, why := clientsBounded(g)
+							good = ok2
+							if !ok2 {
+								msg = fmt.Sprintf("the client comes from %s, where an http.Client %s (%s)", fname(g), why, p.Fset.Position(pos))
+							}
+						} else {
+							msg = "the client's origin is not a function of the module"
+						}
+					case *ssa.Alloc:
+						ok2, _, why := clientsBounded(f)
+						good = ok2
+						msg = "the http.Client built here " + why
+					default:
+						msg = "the client's origin is not recognised (" + exprStr(c.Call.Args[0]) + ")"
+					}
+				}
+				r.Check(good, rule, fname(f)+"/http-exchange-is-time-bounded", c.Pos(), "the HTTP announce is bounded by the client's overall timeout or a deadline on the request's context",
+					"nothing bounds the HTTP exchange with the tracker: "+msg+"; a tracker that sends its headers and then stalls keeps Announce blocked in the body read, the busy flag is never released, and the tracker is skipped in every later round")
+				return
+			}
+			// (b) UDP: reads and writes on the socket happen under a deadline
+			if c.Call.IsInvoke() && (c.Call.Method.Name() == "Read" || c.Call.Method.Name() == "Write") && typeIs(c.Call.Value.Type(), "net", "Conn") {
+				nUDP++
+				r.Fn(f)
+				good := false
+				allInstrs(f, func(i2 ssa.Instruction) {
+					c2, ok := i2.(*ssa.Call)
+					if !ok || !c2.Call.IsInvoke() || c2.Call.Value != c.Call.Value || !instrDominates(c2, c) {
+						return
+					}
+					nm := c2.Call.Method.Name()
+					if nm != "SetDeadline" && !(nm == "SetReadDeadline" && c.Call.Method.Name() == "Read") && !(nm == "SetWriteDeadline" && c.Call.Method.Name() == "Write") {
+						return
+					}
+					// time.Now().Add(positive)
+					if add, ok := c2.Call.Args[0].(*ssa.Call); ok && isStdCall(add, "time", "Time", "Add") && len(add.Call.Args) == 2 {
+						if now, ok := add.Call.Args[0].(*ssa.Call); ok && isStdCall(now, "time", "", "Now") && positiveDur(add.Call.Args[1], map[ssa.Value]bool{}, 0) {
+							good = true
+						}
+					}
+				})
+				r.Check(good, rule, fmt.Sprintf("%s/conn.%s-under-a-deadline", fname(f), c.Call.Method.Name()), c.Pos(), "a deadline in the future is set on the socket before the operation, on every path",
+					"the socket operation is not preceded on every path by SetDeadline(time.Now().Add(positive)): a tracker that does not answer keeps Announce blocked, and the busy flag held, for ever")
+			}
+		})
+	}
+	r.Sentinel(rule+".http-exchange", nHTTP, 1)
+	r.Sentinel(rule+".udp-ops", nUDP, 2)
 }
